@@ -28,7 +28,13 @@ type V2 payload
 type V3 payload
 type V4 payload
 
+// type names that contain the arrow some code might use as a separator when it builds keys from two names
+var arrowNames = map[int]string{90: "a", 91: "a->b", 92: "b->c", 93: "c", 94: "b"}
+
 func tyName(k int) string {
+	if n, ok := arrowNames[k]; ok {
+		return n
+	}
 	switch {
 	case k == 0:
 		return ""
@@ -40,6 +46,11 @@ func tyName(k int) string {
 }
 
 func tyCode(s string) int {
+	for k, n := range arrowNames {
+		if n == s {
+			return k
+		}
+	}
 	switch {
 	case s == "":
 		return 0
@@ -78,6 +89,11 @@ func showCalls(l [][2]string) string {
 func dataToList(d json.RawMessage) string {
 	var p payload
 	if err := json.Unmarshal(d, &p); err != nil {
+		if strings.HasSuffix(string(d), " ]") { // the malformed payload of a `replay … <data>! …` line, handed on untouched
+			if json.Unmarshal(d[:len(d)-2], &p) == nil {
+				return showNatList(p.Tags) + "!"
+			}
+		}
 		return "!" + string(d)
 	}
 	return showNatList(p.Tags)
@@ -85,7 +101,9 @@ func dataToList(d json.RawMessage) string {
 
 func dataOpt(d json.RawMessage) int {
 	var p payload
-	_ = json.Unmarshal(d, &p)
+	if json.Unmarshal(d, &p) != nil && strings.HasSuffix(string(d), " ]") {
+		_ = json.Unmarshal(d[:len(d)-2], &p)
+	}
 	return p.Opt
 }
 
@@ -235,8 +253,12 @@ func upcastDomain(lines []string) []string {
 			out = append(out, "cleartype")
 		case (f[0] == "replay" && len(f) == 6) || (f[0] == "replayagain" && len(f) == 1):
 			if f[0] == "replay" {
-				off, ts, ty, d, opt := atoi(f[1]), atoi(f[2]), atoi(f[3]), natList(f[4]), atoi(f[5])
-				store.ev = &eb.StoredEvent{Offset: eb.Offset(fmt.Sprintf("o%d", off)), Type: tyName(ty), Data: listToData(d, opt), Timestamp: time.Unix(0, int64(ts)).UTC()}
+				off, ts, ty, d, opt := atoi(f[1]), atoi(f[2]), atoi(f[3]), natList(strings.TrimSuffix(f[4], "!")), atoi(f[5])
+				data := listToData(d, opt)
+				if strings.HasSuffix(f[4], "!") {
+					data = append(append(json.RawMessage{}, data...), []byte(" ]")...) // a JSON value followed by garbage: not a JSON document
+				}
+				store.ev = &eb.StoredEvent{Offset: eb.Offset(fmt.Sprintf("o%d", off)), Type: tyName(ty), Data: data, Timestamp: time.Unix(0, int64(ts)).UTC()}
 			} else if store.ev == nil {
 				out = append(out, "replayagain skip")
 				continue
